@@ -26,7 +26,9 @@ INTERP = ["(", ")", "[", "]", ",", ";", "=>", "<<", ">>", "<<<", ">>>",
           "<*", "*>", "..."]
 LITERALS = ["1", "0x1F", "0b101", "1_000", "1.5", "'s'", '"s"', "'\\x41'",
             "//a//", "TRUE", "FALSE", "0x", "0b", "0x_", '"\\xZZ"',
-            "//[//", "'\\x4'", "1.", "0b2", "////"]
+            "//[//", "'\\x4'", "1.", "0b2", "////",
+            "//a{99999999999999999999}//", "//(?P<n>a)(?P<n>b)//", "1.5_",
+            "1._5", "1__0", "0x1_", "00", "1.5.5"]
 IDENTS = ["x", "all", "class", "keys", "values", "entries", "to", "import",
           "unqualified", "empty", "zero", "starts", "with", "contains",
           "matches", "min_len", "checkerlang_x", "a...", "NULL", "date",
@@ -36,6 +38,15 @@ TOKENS = KEYWORDS + OPERATORS + INTERP + LITERALS + IDENTS
 CHARS = ["a", "x", "b", "0", "1", "_", ".", " ", "\n", "\r", "\t", "'", '"',
          "\\", "/", "#", "<", ">", "=", "!", "+", "-", "*", "%", "(", ")",
          "[", "]", ",", ";", "T", "é"]
+
+
+LONG_TOKENS = [
+    "9" * 5000, "1" + "0" * 4400, "-" + "9" * 5000, "0x" + "f" * 5000,
+    "0b" + "1" * 9000, "1." + "3" * 5000, "9" * 5000 + ".5",
+    "'" + "a" * 20000 + "'", "x" * 20000, "//" + "a" * 5000 + "//",
+    "//" + "(" * 200 + ")" * 200 + "//", "//a{5000}{5000}//",
+    "1_" * 3000 + "1", "[" + "9" * 4400 + "]", "x = " + "9" * 4400,
+]
 
 
 def parse_outcome(text):
@@ -271,6 +282,10 @@ def main(tier, seed):
     agg.merge(core.pmap(explore_edits, ejobs))
     njobs = [{"nesters": c} for c in core.chunked(NESTERS, core.NPROC)]
     agg.merge(core.pmap(explore_nesting, njobs))
+    # a handful of texts with one very long token (beyond the product
+    # bounds; cheap, and host limits on literal length live here)
+    for text in LONG_TOKENS:
+        check_text(agg, text, "long-token")
     # non-vacuity: every base program must itself be accepted
     for p in BASE_PROGRAMS:
         o = parse_outcome(p)
